@@ -70,7 +70,8 @@ pub fn install(runtime: Box<dyn Runtime>) -> bool { RUNTIME.set(runtime).is_ok()
 #[inline] fn next_id() -> usize { NEXT_ID.fetch_add(1, Ordering::Relaxed) }
 
 pub mod sync {
-    pub use std::sync::{Arc, Weak, LockResult, TryLockResult, TryLockError, PoisonError, atomic};
+    // Everything the crate might use from std::sync that is not replaced below comes straight from std (local items shadow the glob)
+    pub use std::sync::*;
     use std::ops::{Deref, DerefMut};
     use std::cell::RefCell;
     use std::panic::Location;
@@ -94,6 +95,10 @@ pub mod sync {
 
         /// Identifier of this mutex as reported to the runtime
         pub fn verif_id(&self) -> usize { self.id }
+
+        pub fn into_inner(self) -> LockResult<T> { self.inner.into_inner() }
+        pub fn get_mut(&mut self) -> LockResult<&mut T> { self.inner.get_mut() }
+        pub fn is_poisoned(&self) -> bool { self.inner.is_poisoned() }
 
         /// Reads the protected value without any scheduling point (for state snapshots taken by the harness between steps)
         pub fn verif_peek<R>(&self, read: impl FnOnce(&T) -> R) -> Option<R> {
@@ -183,6 +188,11 @@ pub mod sync {
 
     pub struct Condvar { id: usize, inner: std::sync::Condvar }
 
+    /// Result of `Condvar::wait_timeout` (std's type cannot be constructed outside of std)
+    #[derive(Clone, Copy, PartialEq, Eq, Debug)]
+    pub struct WaitTimeoutResult(bool);
+    impl WaitTimeoutResult { pub fn timed_out(&self) -> bool { self.0 } }
+
     impl Condvar {
         pub fn new() -> Condvar { Condvar { id: next_id(), inner: std::sync::Condvar::new() } }
 
@@ -217,11 +227,49 @@ pub mod sync {
                 Err(err)        => Err(PoisonError::new(mutex.wrap(err.into_inner(), loc, false)))
             }
         }
+
+        /// Waits until the condition is false
+        #[track_caller]
+        pub fn wait_while<'a, T, F: FnMut(&mut T) -> bool>(&self, mut guard: MutexGuard<'a, T>, mut condition: F) -> LockResult<MutexGuard<'a, T>> {
+            while condition(&mut *guard) {
+                guard = match self.wait(guard) { Ok(guard) => guard, Err(err) => return Err(err) };
+            }
+            Ok(guard)
+        }
+
+        /// Wait with a time-out. Under a controlled runtime time does not pass: the wait gives up at once if no notification is pending
+        /// (the mutex is released and re-acquired with a scheduling point in between, which is what a time-out amounts to)
+        #[track_caller]
+        pub fn wait_timeout<'a, T>(&self, mut guard: MutexGuard<'a, T>, dur: std::time::Duration) -> LockResult<(MutexGuard<'a, T>, WaitTimeoutResult)> {
+            let loc     = Location::caller();
+            let mutex   = guard.mutex;
+
+            if let Some(rt) = rt() {
+                guard.release();
+                rt.point(Op::Yield("timeout"), loc);
+                loop {
+                    match mutex.inner.try_lock() {
+                        Ok(guard)                           => return Ok((mutex.wrap(guard, loc, false), WaitTimeoutResult(true))),
+                        Err(TryLockError::Poisoned(err))    => return Err(PoisonError::new((mutex.wrap(err.into_inner(), loc, false), WaitTimeoutResult(true)))),
+                        Err(TryLockError::WouldBlock)       => rt.point(Op::Lock(mutex.id), loc)
+                    }
+                }
+            }
+
+            let std_guard = guard.guard.take().unwrap();
+            HELD.with(|h| { let mut h = h.borrow_mut(); if let Some(pos) = h.iter().rposition(|(held, _)| *held == mutex.id) { h.remove(pos); } });
+
+            match self.inner.wait_timeout(std_guard, dur) {
+                Ok((std_guard, res))    => Ok((mutex.wrap(std_guard, loc, false), WaitTimeoutResult(res.timed_out()))),
+                Err(err)                => { let (std_guard, res) = err.into_inner(); Err(PoisonError::new((mutex.wrap(std_guard, loc, false), WaitTimeoutResult(res.timed_out())))) }
+            }
+        }
     }
 }
 
 pub mod thread {
-    pub use std::thread::{panicking, sleep, yield_now, Result};
+    // Everything not replaced below comes straight from std (local items shadow the glob)
+    pub use std::thread::*;
     use super::{rt, any_rt, Op};
     use std::io;
     use std::panic::Location;
@@ -235,6 +283,27 @@ pub mod thread {
     #[track_caller]
     pub fn park() {
         if let Some(rt) = rt() { rt.point(Op::Park, Location::caller()); } else { std::thread::park() }
+    }
+
+    /// Under a controlled runtime time does not pass: a timed park, a sleep and a yield are plain scheduling points
+    #[track_caller]
+    pub fn park_timeout(dur: std::time::Duration) {
+        if let Some(rt) = rt() { rt.point(Op::Yield("timeout"), Location::caller()); } else { std::thread::park_timeout(dur) }
+    }
+
+    #[track_caller]
+    pub fn sleep(dur: std::time::Duration) {
+        if let Some(rt) = rt() { rt.point(Op::Yield("sleep"), Location::caller()); } else { std::thread::sleep(dur) }
+    }
+
+    #[track_caller]
+    pub fn yield_now() {
+        if let Some(rt) = rt() { rt.point(Op::Yield("yield"), Location::caller()); } else { std::thread::yield_now() }
+    }
+
+    pub fn spawn<F, T>(f: F) -> JoinHandle<T>
+    where F: FnOnce() -> T + Send + 'static, T: Send + 'static {
+        Builder::new().spawn(f).expect("failed to spawn thread")
     }
 
     impl Thread {
@@ -256,6 +325,7 @@ pub mod thread {
     impl Builder {
         pub fn new() -> Builder { Builder { name: None } }
         pub fn name(self, name: String) -> Builder { Builder { name: Some(name) } }
+        pub fn stack_size(self, _size: usize) -> Builder { self }
 
         pub fn spawn<F, T>(self, f: F) -> io::Result<JoinHandle<T>>
         where F: FnOnce() -> T + Send + 'static, T: Send + 'static {
@@ -304,7 +374,7 @@ pub mod thread {
 }
 
 pub mod mpsc {
-    pub use std::sync::mpsc::{RecvError, SendError};
+    pub use std::sync::mpsc::{RecvError, SendError, TryRecvError, RecvTimeoutError};
     use super::{rt, any_rt, next_id, Op};
     use std::sync::{Arc, Mutex, Condvar};
     use std::collections::VecDeque;
@@ -361,6 +431,32 @@ pub mod mpsc {
     }
 
     impl<T> Receiver<T> {
+        pub fn try_recv(&self) -> Result<T, TryRecvError> {
+            let mut state = self.chan.state.lock().unwrap();
+            if let Some(item) = state.items.pop_front() { self.chan.changed(&*state); Ok(item) }
+            else if state.senders == 0 { Err(TryRecvError::Disconnected) }
+            else { Err(TryRecvError::Empty) }
+        }
+
+        /// Under a controlled runtime time does not pass: this is a scheduling point followed by `try_recv`
+        #[track_caller]
+        pub fn recv_timeout(&self, dur: std::time::Duration) -> Result<T, RecvTimeoutError> {
+            if let Some(rt) = rt() {
+                rt.point(Op::Yield("timeout"), Location::caller());
+                return self.try_recv().map_err(|err| match err { TryRecvError::Empty => RecvTimeoutError::Timeout, TryRecvError::Disconnected => RecvTimeoutError::Disconnected });
+            }
+
+            let deadline = std::time::Instant::now() + dur;
+            let mut state = self.chan.state.lock().unwrap();
+            loop {
+                if let Some(item) = state.items.pop_front() { self.chan.changed(&*state); return Ok(item); }
+                if state.senders == 0 { return Err(RecvTimeoutError::Disconnected); }
+                let now = std::time::Instant::now();
+                if now >= deadline { return Err(RecvTimeoutError::Timeout); }
+                state = self.chan.cv.wait_timeout(state, deadline - now).unwrap().0;
+            }
+        }
+
         #[track_caller]
         pub fn recv(&self) -> Result<T, RecvError> {
             let loc = Location::caller();
